@@ -523,3 +523,113 @@ Section Sim2.
       cbn [mon_run]. rewrite Hstep, mon_run_app, A2. exact A3.
   Qed.
 End Sim2.
+
+(** ---------- one operation ---------- *)
+
+Lemma R_ctl ex s m s' : R ex s m -> s_rq s' = s_rq s -> same_ctl s s' -> R ex s' m.
+Proof.
+  unfold R, open_ok. intros (A & B & C & D & F & G & J) E (C1 & C2 & C3 & C4).
+  rewrite E, C1, C2, C3, C4. repeat split; auto.
+Qed.
+
+Section Sim3.
+  Variable eager : N.
+  Variable reqs : list reqspec.
+
+  Lemma step_sim s m o s' evs :
+    R [] s m -> step eager reqs s o = (s', evs) ->
+    exists m', mon_run m evs = Some m' /\ R [] s' m'.
+  Proof.
+    intros HR. destruct o as [n| | | |i a]; cbn [step].
+    - (* Data *)
+      destruct (s_lost s) eqn:El; [intro E; inversion E; subst; exists m; split; [reflexivity|exact HR]|].
+      destruct (s_handling s) eqn:Eh.
+      + assert (R1 : R [] (mkSt (s_rq s) true (s_inchan s) (s_recv s + n) (s_cons s) (s_waiting s) (s_cprod s) (s_closing s) false) m).
+        { eapply R_ctl; [exact HR|reflexivity|]. repeat split; cbn; congruence. }
+        intro E; inversion E; subst. destruct (0 <? n)%N.
+        * apply eager_check_sim; [exact R1|reflexivity].
+        * exists m. split; [reflexivity|exact R1].
+      + assert (R1 : R [] (mkSt (s_rq s) false (s_inchan s) (s_recv s + n) (s_cons s) (s_waiting s) (s_cprod s) (s_closing s) false) m).
+        { eapply R_ctl; [exact HR|reflexivity|]. repeat split; cbn; congruence. }
+        intro E. destruct (drain_sim eager reqs [] _ _ _ _ _ R1 (fun j (H : In j []) => match H with end) E) as (m' & A & B & _).
+        exists m'. auto.
+    - (* transport pauses the channel *)
+      intro E; inversion E; subst; clear E.
+      assert (Hp : mon_run m (if s_cprod s then [EProdPause (pred (length (s_rq s)))] else []) = Some m)
+        by (destruct (s_cprod s); reflexivity).
+      rewrite mon_run_app, Hp. destruct HR as (A & B & C & D & F & G & J).
+      destruct (s_handling s) eqn:Eh; eexists; (split; [reflexivity|]); unfold R, open_ok in *; cbn; repeat split; auto;
+        try (intros; congruence).
+    - (* transport resumes the channel *)
+      intro E; inversion E; subst; clear E.
+      assert (Hp : mon_run m (if s_cprod s then [EProdResume (pred (length (s_rq s)))] else []) = Some m)
+        by (destruct (s_cprod s); reflexivity).
+      rewrite mon_run_app, Hp. destruct HR as (A & B & C & D & F & G & J).
+      destruct (s_handling s) eqn:Eh; eexists; (split; [reflexivity|]); unfold R, open_ok in *; cbn; repeat split; auto;
+        try (intros; congruence).
+    - (* connection lost *)
+      destruct (s_lost s) eqn:El; [intro E; inversion E; subst; exists m; split; [reflexivity|exact HR]|].
+      destruct (s_inchan s) eqn:Ein.
+      + pose proof HR as (Hrq & Ho & HC & HD & HF & HG & HJ). unfold open_ok in Ho.
+        destruct (m_open m) as [i|] eqn:Hop; [|congruence].
+        destruct Ho as (_ & HS & r & Hi & Hf & Hh & Hd & Hn).
+        replace (pred (length (s_rq s))) with i by lia. rewrite Hi.
+        pose proof (HJ El i r Hi) as Hdisc. pose proof (nth_some_lt _ _ _ Hi) as Hlt.
+        set (r' := mkRq (r_started r) (r_finished r) true (r_pending r) (r_ndef r) (r_nw r) (r_prod r)).
+        set (s2 := set_rq (mkSt (s_rq s) (s_handling s) true (s_recv s) (s_cons s) (s_waiting s) (s_cprod s) (s_closing s) true)
+                          (upd (s_rq s) i r')).
+        set (m2 := mkMon (upd (m_rq m) i (mkM (r_finished r) true (r_ndef r) (r_pending r))) (m_open m) (m_head m) true (m_nw m) (m_paused m)).
+        assert (Hstep : mon_step m (ELost i) = Some m2).
+        { cbn [mon_step]. rewrite (mon_nth _ _ _ _ _ HR Hi), (is_open_true _ _ Hop), Hd, Hdisc. reflexivity. }
+        assert (R2 : R [i] s2 m2).
+        { unfold R. refine (conj _ (conj _ (conj _ (conj _ (conj _ (conj _ _)))))).
+          - unfold m2, s2. cbn [m_rq s_rq set_rq]. rewrite map_upd, Hrq. reflexivity.
+          - unfold open_ok, m2, s2. cbn [m_open s_inchan s_rq set_rq m_head m_dead m_nw]. rewrite Hop, upd_length.
+            split; [reflexivity|]. split; [exact HS|]. exists r'. rewrite nth_upd_same by exact Hlt. repeat split; auto.
+          - intros j rj Hj. unfold s2 in *. cbn [s_rq set_rq s_inchan] in *. rewrite upd_length.
+            destruct (Nat.eq_dec j i) as [->|Hne]; [left; auto|].
+            rewrite nth_upd_other in Hj by congruence.
+            destruct (HC j rj Hj) as [[_ X]|X]; [left; split; [reflexivity|exact X]|right; exact X].
+          - unfold s2. cbn. intros Hh0. rewrite (HD Hh0) in Ein. discriminate.
+          - intros j rj Hj Hex Hc. unfold s2 in Hj. cbn [s_rq set_rq] in Hj.
+            destruct (Nat.eq_dec j i) as [->|Hne]; [exfalso; apply Hex; left; reflexivity|].
+            rewrite nth_upd_other in Hj by congruence. exact (HF j rj Hj (fun f => f) Hc).
+          - unfold s2, m2. cbn. exact HG.
+          - unfold s2. cbn. discriminate. }
+        assert (Hi2 : nth_error (s_rq s2) i = Some r') by (unfold s2; cbn [s_rq set_rq]; apply nth_upd_same, Hlt).
+        destruct (fire_sim [] s2 m2 i false r' R2 Hi2 eq_refl) as (m3 & A3 & R3).
+        fold r'. fold s2. destruct (fire i false s2) as [s3 e3]. cbn [fst snd] in *.
+        intro E; inversion E; subst. exists m3. split; [cbn [mon_run]; rewrite Hstep; exact A3|exact R3].
+      + intro E; inversion E; subst. exists m. split; [reflexivity|].
+        destruct HR as (A & B & C & D & F & G & J). unfold R, open_ok in *. cbn. rewrite Ein in *. repeat split; auto.
+        intros C0. discriminate.
+    - (* the application acts on request i *)
+      destruct (app_simple i a s) as [[s1 e1]|] eqn:Ea.
+      + intro E; inversion E; subst. eapply app_simple_sim; eauto.
+      + destruct (app_simple_none _ _ _ Ea) as (r & Hi & Hd & Hf). rewrite Hi.
+        destruct (finish_core reqs i r s) as [s1 e1] eqn:Ef.
+        destruct (finish_core_sim reqs _ _ _ _ _ _ _ HR Hi Hf Hd Ef) as (m1 & A1 & R1 & (r1 & Hi1 & Hf1) & Hlen & _).
+        destruct (drain eager reqs (remaining reqs s1) s1) as [s2 e2] eqn:Ed.
+        assert (Hlt1 : forall j, In j [i] -> j < length (s_rq s1)).
+        { intros j [<-|[]]. rewrite Hlen. eapply nth_some_lt, Hi. }
+        destruct (drain_sim eager reqs [i] _ _ _ _ _ R1 Hlt1 Ed) as (m2 & A2 & R2 & [_ K2]).
+        destruct (K2 i r1 Hi1 Hf1) as (r2 & Hi2 & Hf2).
+        destruct (fire_sim [] s2 m2 i true r2 R2 Hi2 Hf2) as (m3 & A3 & R3).
+        destruct (fire i true s2) as [s3 e3]. cbn [fst snd] in *.
+        intro E; inversion E; subst. exists m3. split; [|exact R3].
+        rewrite mon_run_app, A1, mon_run_app, A2. exact A3.
+  Qed.
+
+  Theorem run_sim ops : forall s m, R [] s m ->
+    exists m', mon_ops m (snd (run eager reqs s ops)) = Some m' /\ R [] (fst (run eager reqs s ops)) m'.
+  Proof.
+    induction ops as [|o ops IH]; intros s m HR; cbn [run].
+    - exists m. split; [reflexivity|exact HR].
+    - destruct (step eager reqs s o) as [s1 e] eqn:Es. destruct (run eager reqs s1 ops) as [s2 es] eqn:Er.
+      destruct (step_sim _ _ _ _ _ HR Es) as (m1 & A & R1). destruct (IH s1 m1 R1) as (m2 & B & R2). rewrite Er in B, R2.
+      cbn [fst snd mon_ops] in *. rewrite A, (R_quiescent _ _ R1). exists m2. auto.
+  Qed.
+
+  Corollary every_log_accepted ops : mon_ops mon0 (snd (run eager reqs st0 ops)) <> None.
+  Proof. destruct (run_sim ops st0 mon0 R0) as [m' [H _]]. rewrite H. discriminate. Qed.
+End Sim3.
